@@ -58,6 +58,14 @@ Seqs1To2(S)  == { <<x>> : x \in S } \cup { <<x, y>> : x \in S, y \in S }
 Q1 == { VQ(c, n, ch) : c \in Conns, n \in BOOLEAN, ch \in SeqsUpTo2(Pairs) }
 Q2 == { VQ(c, n, ch) : c \in Conns, n \in BOOLEAN, ch \in Seqs1To2(Pairs \cup Q1) }
 
+(* lookups against expressions instead of plain values: the child is stored as
+   ["lookup", {deconstructed}] -- a list that starts with a primitive and goes on
+   with an object *)
+PairsX == { VPair("a", VF("b")), VPair("b", VValue(VInt(1))), VPair("a", VInt(1)),
+            VPair("a", VTuple(<<VInt(0), VInt(1)>>)),      \* Q(a__in=(0, 1))
+            VPair("a", VList(<<VInt(1)>>)) }               \* Q(a__in=[1])
+Q3 == { VQ(c, n, ch) : c \in Conns, n \in BOOLEAN, ch \in Seqs1To2(PairsX) }
+
 Ops == { "+", "*", "-" }
 E0 == { VF("a"), VValue(VInt(1)) }
 E1 == { VComb(l, op, r) : l \in E0, op \in Ops, r \in E0 }
@@ -69,7 +77,7 @@ Containers ==
     \cup { VDict("dict", <<VStr("k"), x>>) : x \in Prims }
     \cup { VList(<<VTuple(<<VStr("s")>>)>>), VTuple(<<VList(<<VInt(1)>>)>>) }
 
-Values == Prims \cup Q1 \cup Q2 \cup E0 \cup E1 \cup E2 \cup Containers
+Values == Prims \cup Q1 \cup Q2 \cup Q3 \cup E0 \cup E1 \cup E2 \cup Containers
           \cup { VEnum("DEFERRED"), VEnum("IMMEDIATE") }
 
 Init == val \in Values
